@@ -21,7 +21,10 @@ CONSTANTS Configs,     \* set of [files, proto, upload, confirm]: one is chosen 
           StopRoles,   \* roles on which the user may press stop
           MaxPauses,   \* number of pause/continue cycles the user may start on the client (protocol >= 3)
           TimeoutTicks,\* read time-out in clock ticks
-          MaxTicks     \* bound on the clock while paused
+          MaxTicks,    \* bound on the clock while paused
+          Weaken       \* "none", or the name of one local check that is switched off (guard-necessity runs):
+                       \* "md5_r" receiver's digest compare, "md5_s" sender's digest echo compare,
+                       \* "ack_len" sender's ack length echo, "final" receiver's saved = size test
 
 VARIABLE cf            \* the configuration of this transfer
 Files == cf.files
@@ -285,7 +288,7 @@ SSendFinish ==
 SRecvAck2 ==
     /\ Proto >= 2 /\ Running(S) /\ pc[S] \in {"s_data", "s_acks"} /\ ~Stp(S) /\ outst # <<>> /\ PauseOK(S)
     /\ RecvOK(S, "SUCC") /\ HeadMsg(S).a # -2
-    /\ IF HeadMsg(S).a # outst[1] \/ HeadMsg(S).b < 0 THEN Fail(S, "fail", FALSE) /\ UnchangedData
+    /\ IF (Weaken # "ack_len" /\ HeadMsg(S).a # outst[1]) \/ HeadMsg(S).b < 0 THEN Fail(S, "fail", FALSE) /\ UnchangedData
        ELSE /\ chan' = Pop(chan, S) /\ outst' = Tail(outst) /\ Keep(S)
             /\ Go(S, IF pc[S] = "s_acks" /\ Len(outst) = 1 THEN "s_final" ELSE pc[S])
             /\ UNCHANGED <<made, rem, sdig, got, ackq, fin, rsize, dst, rdig, fileOK, faults, dead, fi>>
@@ -307,7 +310,7 @@ SSendMD5 ==
 SRecvMD5Ack ==
     /\ Running(S) /\ pc[S] = "s_md5_ack" /\ ~Stp(S) /\ RecvOK(S, "SUCC")
     /\ LET f == fi[S] IN
-       IF HeadMsg(S).b # -7 \/ Cont(HeadMsg(S).a, HeadMsg(S).ok) # sdig THEN Fail(S, "fail", FALSE) /\ UnchangedData
+       IF Weaken # "md5_s" /\ (HeadMsg(S).b # -7 \/ Cont(HeadMsg(S).a, HeadMsg(S).ok) # sdig) THEN Fail(S, "fail", FALSE) /\ UnchangedData
        ELSE /\ chan' = Pop(chan, S) /\ Keep(S)
             /\ fileOK' = [fileOK EXCEPT ![S] = @ \cup {f}]
             /\ Go(S, NextFileS(f))
@@ -402,7 +405,7 @@ RSendAck ==
 (* ("SaveFile expected step ...").  The model sends it once everything received is written.  *)
 RSendFinal ==
     /\ Running(R) /\ pc[R] = "r_data" /\ ~Stp(R) /\ fin /\ ackq = <<>> /\ got.len = 0 /\ PauseOK(R)
-    /\ IF Saved # rsize
+    /\ IF Weaken # "final" /\ Saved # rsize
        THEN Fail(R, "fail", FALSE) /\ UnchangedData
        ELSE /\ chan' = Send(S, Msg("SUCC", -1, Saved, 0))
             /\ Go(R, "r_md5")
@@ -419,7 +422,7 @@ RSendFinalEarly ==
 RRecvMD5 ==
     /\ Running(R) /\ pc[R] = "r_md5" /\ ~Stp(R) /\ RecvOK(R, "MD5")
     /\ LET f == fi[R] m == HeadMsg(R) IN
-       IF Cont(m.a, m.ok) # rdig THEN Fail(R, "fail", FALSE) /\ UnchangedData
+       IF Weaken # "md5_r" /\ Cont(m.a, m.ok) # rdig THEN Fail(R, "fail", FALSE) /\ UnchangedData
        ELSE /\ chan' = [Pop(chan, R) EXCEPT ![S] = IF dead[S] THEN @ ELSE Append(@, Msg("SUCC", rdig.len, -7, rdig.ok))]    \* b = -7: an encoded digest, not a number
             /\ fileOK' = [fileOK EXCEPT ![R] = @ \cup {f}]
             /\ Go(R, NextFileR(f)) /\ Keep(R)
